@@ -458,6 +458,9 @@ class AioConnection:
         hook = eng.fault_hook
         if hook is not None:
             hook(sess, _phase(node), sql)
+        sched = getattr(eng, 'sched_hook', None)
+        if sched is not None:
+            await sched(sess, sql)          # schedule point owned by the harness (generated interleavings of concurrent requests)
         gate = eng.gate
         owned = gate.owner is sess
         plain_select = (node.k in ('spec', 'union') and not getattr(node, 'locking_read', False)) or node.k in ('begin', 'set', 'noop')
@@ -466,14 +469,16 @@ class AioConnection:
                 # COMMIT / ROLLBACK / SET with nothing open: no transaction starts, nothing to serialise
                 return eng.execute_node(sess, node, params)
             cb = eng.on_transaction_start
-            if cb is not None and not sess.in_txn:
-                await cb(sess)
             import asyncio
             if gate.owner is not None and getattr(gate, 'owner_task', None) is asyncio.current_task():
                 raise E.NotSupported('minimysql: a task that holds an open write transaction issued a statement on a second '
                                      'connection (would wait on itself; lock-level concurrency is not modelled)')
             await gate.acquire(sess)
             gate.owner_task = asyncio.current_task()
+            if cb is not None and not sess.in_txn:
+                # observed with the gate held: no other transaction is open, so the observer sees committed state only (matters
+                # once two requests are in flight at the same time)
+                await cb(sess)
         try:
             return eng.execute_node(sess, node, params)
         finally:
